@@ -504,6 +504,14 @@ func genBundle(g *Gen, o BundleOpts) *Bundle {
 		plusWhat = what
 	}
 	root := M{"swagger": "2.0", "info": M{"title": "t", "version": "1"}, "paths": paths, "definitions": rootDefs}
+	if g.p(0.5) {
+		// document-level media types and security that no operation restates (the analyzer's required unions)
+		root["consumes"] = []any{"application/json", "text/x-top"}
+		root["produces"] = []any{"application/x-top"}
+		root["security"] = []any{M{"topKey": []any{}}}
+		root["securityDefinitions"] = M{"topKey": M{"type": "apiKey", "in": "header", "name": "X-Top"}}
+		g.hit("root:top-level-defaults")
+	}
 	if len(params) > 0 {
 		root["parameters"] = params
 	}
@@ -748,6 +756,15 @@ func (b *bgen) injectScenario(name string, rootDefs, paths M, aux map[string]M, 
 			rootDefs["address"] = M{"type": "object", "properties": M{"street": M{"type": "string"}}}
 			paths["/scn/store"] = M{"get": resp(M{"$ref": "#/definitions/petStore"})}
 		}
+		if g.p(0.5) {
+			// a definition whose name continues another one's by a pointer-like suffix, referred to only from inside that one
+			base := g.pick([]string{"page", "tok~", "my page"})
+			sub := base + g.pick([]string{"/items", "0", "/properties/p"})
+			rootDefs[base] = M{"type": "object", "properties": M{"p": M{"type": "array", "items": M{"$ref": "#/definitions/" + jsonPtrEscape(sub)}}}}
+			rootDefs[sub] = M{"type": "object", "properties": M{"v": M{"type": "string"}}}
+			paths["/scn/prefix-sub"] = M{"get": resp(M{"$ref": "#/definitions/" + jsonPtrEscape(base)})}
+			g.hit("scenario:prefix-names-pointer-like-suffix")
+		}
 		g.hit("scenario:prefix-names")
 	case "generated-name-clash":
 		// existing definitions named like the names full flattening generates for inline complex schemas nested in a
@@ -888,6 +905,17 @@ func (b *bgen) injectScenario(name string, rootDefs, paths M, aux map[string]M, 
 		aux["aux/deep/b.json"] = M{"definitions": M{nm: M{"type": "object", "properties": M{"fromB": M{"type": "integer"}}}}}
 		frag := "#/definitions/" + urlFragEscape(jsonPtrEscape(nm))
 		paths["/scn/nodefs"] = M{"get": resp(M{"$ref": "aux/a.json" + frag}), "put": resp(M{"type": "array", "items": M{"$ref": "aux/deep/b.json" + frag}})}
+		if g.p(0.5) {
+			// … each reached through a definition that lies on a cycle of its document: the cycles survive Expand, and with
+			// them the $refs to the two leaves, which are then imported under one name
+			for i, ap := range []string{"aux/a.json", "aux/deep/b.json"} {
+				// (the definitions on the cycles hold $refs: their own names must not collide)
+				ln := []string{"loopA", "loopB"}[i]
+				aux[ap]["definitions"].(M)[ln] = M{"type": "object", "properties": M{"again": M{"$ref": "#/definitions/" + ln}, "leaf": M{"$ref": frag}}}
+			}
+			paths["/scn/nodefs-cycles"] = M{"get": resp(M{"$ref": "aux/a.json#/definitions/loopA"}), "put": resp(M{"$ref": "aux/deep/b.json#/definitions/loopB"})}
+			g.hit("scenario:no-root-definitions-under-cycles")
+		}
 		g.hit("scenario:no-root-definitions")
 	case "pointer-in-simple-target":
 		// an operation-level pointer (single caller) to a simple array / map sub-schema of a root definition whose element is
@@ -1101,10 +1129,13 @@ func (b *bgen) injectScenario(name string, rootDefs, paths M, aux map[string]M, 
 			rootDefs["emptyHolder"] = M{"type": "object", "properties": M{"b": M{"$ref": relRef("", ap) + "#/definitions/" + esc}, "n": M{"type": "integer"}}}
 			paths["/scn/empty"] = M{"get": resp(M{"$ref": "#/definitions/emptyHolder"})}
 			g.hit("scenario:empty-mangled-names-import")
-		} else {
+		}
+		if g.p(0.6) {
+			en = g.pick([]string{"{ }", "??", "[ ]"})
+			esc = urlFragEscape(jsonPtrEscape(en))
 			en2 := g.pick([]string{"[]", "~/", "? ?"})
 			rootDefs[en] = M{"type": "object", "properties": M{en2: M{"type": "object", "properties": M{"z": M{"type": "string"}}}, "w": M{"type": "integer"}}}
-			paths["/scn/empty"] = M{"get": resp(M{"$ref": "#/definitions/" + esc})}
+			paths["/scn/empty-inline"] = M{"get": resp(M{"$ref": "#/definitions/" + esc})}
 			g.hit("scenario:empty-mangled-names-inline")
 		}
 	case "relative-path-two-bases":
@@ -1127,6 +1158,23 @@ func (b *bgen) injectScenario(name string, rootDefs, paths M, aux map[string]M, 
 		rootDefs["bar"] = M{"type": "object", "properties": M{"baz": M{"type": "object", "properties": M{"inline": M{"type": "integer"}}}}}
 		paths["/scn/bar"] = M{"get": resp(M{"$ref": "#/definitions/bar"}), "put": resp(M{"$ref": relRef("", ap) + "#/definitions/barBaz"})}
 		g.hit("scenario:generated-name-equals-imported")
+	case "alias-to-pointer":
+		// a top-level definition that is nothing but a $ref to an anonymous pointer into another root definition, the only
+		// referrer of that sub-schema (one or two such aliases)
+		rootDefs["aliasOwner"] = M{"type": "object", "properties": M{
+			"detail": M{"type": "object", "properties": M{"d": M{"type": "string"}}},
+			"count":  M{"type": "integer"}}}
+		target := "#/definitions/aliasOwner/properties/" + g.pick([]string{"detail", "count"})
+		rootDefs["aliasHolder"] = M{"$ref": target}
+		paths["/scn/alias"] = M{"get": resp(M{"$ref": "#/definitions/aliasHolder"})}
+		if g.p(0.4) {
+			rootDefs["aliasHolder2"] = M{"$ref": target}
+			paths["/scn/alias2"] = M{"get": resp(M{"$ref": "#/definitions/aliasHolder2"})}
+		}
+		if g.p(0.5) {
+			paths["/scn/alias-owner"] = M{"get": resp(M{"$ref": "#/definitions/aliasOwner"})}
+		}
+		g.hit("scenario:alias-to-pointer")
 	case "unused-chain":
 		// definitions that become unused only after another one is removed, through names that need escaping
 		if g.p(0.5) {
@@ -1164,7 +1212,16 @@ func (b *bgen) injectPlus(rootDefs, paths M, aux map[string]M, params, resps M) 
 		paths[fmt.Sprintf("/plus/%d", len(paths))] = M{g.pick(allMethods): resp(schema)}
 	}
 	for i, k := 0, 1+g.n(2); i < k; i++ {
-		switch g.n(11) {
+		switch g.n(12) {
+		case 11:
+			// an anonymous pointer to the complex schema of a body parameter declared at the level of a path item that has no
+			// operation: no name can be derived for it
+			paths["/plus/orphan"] = M{"parameters": []any{M{"name": "b", "in": "body", "schema": M{"type": "object", "properties": M{"o": M{"type": "string"}}}}}}
+			addPath(M{"$ref": "#/paths/~1plus~1orphan/parameters/0/schema"})
+			if g.p(0.5) {
+				addPath(M{"type": "array", "items": M{"$ref": "#/paths/~1plus~1orphan/parameters/0/schema"}})
+			}
+			what = append(what, "pointer-to-orphan-path-parameter-schema")
 		case 10:
 			// the schema of a shared response / shared body parameter that is an array or a map of itself through an anonymous
 			// pointer to that very schema, and is pointed at from an operation: expanded in place, it must not become a cyclic
